@@ -64,7 +64,8 @@ func (m *mut) boolean(valid bool, label string) bool {
 // the integer/enum/bool fields of message number `mutIdx` are symbolic. `structure`
 // alters the message sequence: 0 none, 1 drop the first end marker, 2 duplicate it,
 // 3 swap the kinds of the two series headers, 4 drop the bsdiff EOF control, 5 an op after the full-file op of the
-// third file, 6 no end marker after it.
+// third file, 6 no end marker after it, 7 a patch header without compression settings. mutIdx 100: the header's
+// compression algorithm and quality are symbolic.
 func buildPatch(mutIdx, structure int) []byte {
 	target, source := containers()
 	var buf bytes.Buffer
@@ -75,7 +76,16 @@ func buildPatch(mutIdx, structure int) []byte {
 		m.cur++
 	}
 	hlib.Must(wc.WriteMagic(pwr.PatchMagic), "magic")
-	hlib.Must(wc.WriteMessage(&pwr.PatchHeader{Compression: hlib.None()}), "header")
+	switch {
+	case structure == 7:
+		// the header carries no compression settings at all (a zero-length message)
+		hlib.Must(wc.WriteMessage(&pwr.PatchHeader{}), "empty header")
+	case mutIdx == 100:
+		// the header's compression algorithm and quality are arbitrary (unknown algorithm, negative quality ...)
+		hlib.Must(wc.WriteMessage(&pwr.PatchHeader{Compression: &pwr.CompressionSettings{Algorithm: pwr.CompressionAlgorithm(rt.Int32("hdr.algorithm")), Quality: rt.Int32("hdr.quality")}}), "symbolic header")
+	default:
+		hlib.Must(wc.WriteMessage(&pwr.PatchHeader{Compression: hlib.None()}), "header")
+	}
 	hlib.Must(wc.WriteMessage(target), "target")
 	hlib.Must(wc.WriteMessage(source), "source")
 	k0, k1 := pwr.SyncHeader_RSYNC, pwr.SyncHeader_BSDIFF
@@ -199,7 +209,18 @@ func H_signature() {
 	var buf bytes.Buffer
 	wc := wire.NewWriteContext(&buf)
 	hlib.Must(wc.WriteMagic(pwr.SignatureMagic), "magic")
-	hlib.Must(wc.WriteMessage(&pwr.SignatureHeader{Compression: hlib.None()}), "header")
+	hdr := 0
+	if rt.HasParam("hdr") {
+		hdr = rt.Param("hdr")
+	}
+	switch hdr {
+	case 1:
+		hlib.Must(wc.WriteMessage(&pwr.SignatureHeader{}), "empty header")
+	case 2:
+		hlib.Must(wc.WriteMessage(&pwr.SignatureHeader{Compression: &pwr.CompressionSettings{Algorithm: pwr.CompressionAlgorithm(rt.Int32("sighdr.algorithm")), Quality: rt.Int32("sighdr.quality")}}), "symbolic header")
+	default:
+		hlib.Must(wc.WriteMessage(&pwr.SignatureHeader{Compression: hlib.None()}), "header")
+	}
 	hlib.Must(wc.WriteMessage(c), "container")
 	for i := 0; i < nh; i++ {
 		hlib.Must(wc.WriteMessage(&pwr.BlockHash{WeakHash: rt.Uint32("weak"), StrongHash: []byte{byte(i)}}), "hash")
